@@ -47,18 +47,44 @@ def tagged_db(scope='extended'):
                 if e['rules'] == '-' or e['rules'] == ':':
                     e['rules'] = '-'
         rules['PolB'][2]['letter'] = 'E'
+    def coll(prefix, why, n):
+        # n entries, inserted in an order that is not the sorted one; the second entry carries two reasons
+        out = {}
+        for i in [k for k in range(n) if k % 2] + [k for k in range(n) if not k % 2]:
+            out['%s%02d' % (prefix, i)] = ['%s-%02d' % (why, i)] + (['%s-more' % why] if i == 1 else [])
+        return out
+    # the sizes of all collections differ (zones 3, policies 2, links 4, rules 5, eras 6, and 7..12 below), so that a
+    # number in the output says which collection was counted
     return {
         'tz_version': '2099z', 'tz_files': ['fileone', 'filetwo'], 'scope': scope, 'start_year': 2000, 'until_year': 2050,
         'until_at_granularity': 60, 'offset_granularity': 60, 'strict': True,
-        'zones_map': zones, 'rules_map': rules, 'links_map': {'Tag/Link-one': 'Tag/Zeta', 'Tag/Another': 'Tag/alpha'},
-        'removed_zones': {'Tag/GoneZone': ['why-gone-zone'], 'Tag/AlsoGone': ['why-also-gone', 'second-reason']},
-        'removed_policies': {'GonePol': ['why-gone-pol']},
-        'removed_links': {'Tag/GoneLink': ['why-gone-link']},
-        'notable_zones': {'Tag/alpha': ['note-alpha']},
-        'notable_policies': {'PolA': ['note-pola']},
-        'notable_links': {'Tag/Another': ['note-another']},
-        'format_strings': ['A%sT', 'AFT', 'Z%sT', 'MMT', 'M%sT', 'MXT'], 'zone_strings': ['Tag/alpha', 'Tag/Zeta', 'Tag/Mid-dle'],
+        'zones_map': zones, 'rules_map': rules,
+        'links_map': {'Tag/Link-one': 'Tag/Zeta', 'Tag/Another': 'Tag/alpha', 'Tag/Third': 'Tag/Zeta', 'Tag/Bee': 'Tag/Mid-dle'},
+        'removed_links': coll('Tag/GoneLink', 'why-gone-link', 7),
+        'notable_zones': coll('Tag/NoteZone', 'note-zone', 8),
+        'notable_policies': coll('NotePol', 'note-pol', 9),
+        'notable_links': coll('Tag/NoteLink', 'note-link', 10),
+        'removed_zones': coll('Tag/GoneZone', 'why-gone-zone', 11),
+        'removed_policies': coll('GonePol', 'why-gone-pol', 12),
     }
+
+
+def permuted(db):
+    """the same database with every map filled in the reverse order"""
+    out = {}
+    for k, v in db.items():
+        out[k] = dict(reversed(list(v.items()))) if isinstance(v, dict) else v
+    return out
+
+
+def sizes(db):
+    """{(category, kind): size} of the collections of a tagged database, plus totals and per-owner counts"""
+    out = {('supported', 'zones'): len(db['zones_map']), ('supported', 'links'): len(db['links_map']), ('supported', 'policies'): len(db['rules_map']),
+           ('supported', 'rules'): sum(len(v) for v in db['rules_map'].values()), ('supported', 'eras'): sum(len(v) for v in db['zones_map'].values())}
+    for cat in ('removed', 'notable'):
+        for kind in ('zones', 'links', 'policies'):
+            out[(cat, kind)] = len(db['%s_%s' % (cat, kind)])
+    return out
 
 
 def with_sizes(db):
@@ -66,6 +92,78 @@ def with_sizes(db):
            'buf_sizes': {n: 3 + i for i, n in enumerate(sorted(db['zones_map']))}, 'tzdb': db}
     out.update(db)
     return out
+
+
+class _Sink:
+    """what open(path, 'w') gives the interpreted program: it remembers what is printed into it"""
+
+    pyeval_native = ('write', 'writelines', 'close', 'flush')
+
+    def __init__(self, files, path):
+        self.files, self.path = files, path
+        files[path] = ''
+
+    def write(self, s):
+        self.files[self.path] += s
+        return len(s)
+
+    def writelines(self, ls):
+        for s in ls:
+            self.files[self.path] += s
+
+    def close(self):
+        return None
+
+    def flush(self):
+        return None
+
+
+def capture(ev):
+    """open() / print(file=) of the interpreted program write into the returned dict {path: text}"""
+    files = {}
+
+    def p_open(path, mode='r', **kw):
+        if 'w' not in mode:
+            raise AnalysisError('abstract evaluation: the program reads the file %s' % path)
+        return _Sink(files, path)
+
+    def p_print(*a, sep=' ', end='\n', file=None):
+        if isinstance(file, _Sink):
+            file.files[file.path] += sep.join(str(x) for x in a) + end
+        return None
+    ev.intr['open'] = p_open
+    ev.intr['print'] = p_print
+    return files
+
+
+GENERATORS = {'arduino': ('tools/zonedb/argenerator.py', 'ArduinoGenerator'), 'python': ('tools/zonedb/pygenerator.py', 'PythonGenerator'),
+              'zonelist': ('tools/zonedb/zonelistgenerator.py', 'ZoneListGenerator')}
+
+
+def generate_files(cfg, kind, db, **over):
+    """{file name: text} written by <Generator>(...).generate_files('OUT') on the tagged database"""
+    import os
+    rel, cls = GENERATORS[kind]
+    ev = PyEval(cfg)
+    files = capture(ev)
+    mod = ev.module(rel)
+    vals = with_sizes(db)
+    vals.update(over)
+    init = mod.funcs.get(cls + '.__init__')
+    gf = mod.funcs.get(cls + '.generate_files')
+    if init is None or gf is None:
+        raise AnalysisError('anchor vanished: %s.__init__ / generate_files in %s' % (cls, rel))
+    kwargs = {}
+    for p in init.params[1:]:
+        if p not in vals:
+            raise AnalysisError('%s: constructor parameter %s is not part of the tagged database' % (init.loc, p))
+        kwargs[p] = vals[p]
+    try:
+        obj = ev.instantiate(mod, cls, kwargs=kwargs)
+        ev.call(mod, cls + '.generate_files', ['OUT'], recv=obj)
+    except Raised as r_:
+        raise Raised('%s (%s)' % (r_.what, r_.loc), gf.loc)
+    return {os.path.basename(k): v for k, v in files.items()}
 
 
 class Rendering:
